@@ -33,7 +33,7 @@ ASSUMPTIONS = [
 ]
 CASES = {'quick': 11000, 'thorough': 150000}
 TIME = {'quick': 70, 'thorough': 560}
-MIN_NONTRIVIAL = {'quick': 1500, 'thorough': 15000}
+MIN_NONTRIVIAL = {'quick': 500, 'thorough': 5000}
 REQUIRED = ('showdowns', 'auto_mucks', 'auto_kills', 'twin_runs_compared',
             'winners_checked_shown', 'tournament_partial_show_probes',
             'side_pot_showdowns', 'multi_board_showdowns', 'hilo_showdowns',
